@@ -627,7 +627,11 @@ impl PacketReceiver for IceConn {
                                 *probation_guard = None; // drop state
                                 drop(probation_guard);
 
-                                if win_addr != current_remote {
+                                // `remote_addr` tentatively follows the source of the
+                                // packet being processed (see above), so it equals
+                                // `addr` here, not the `current_remote` snapshot taken
+                                // on entry.
+                                if win_addr != addr {
                                     *self.remote_addr.write() = win_addr;
                                 }
                                 self.rtp_latched.store(true, Ordering::Relaxed);
